@@ -15,8 +15,27 @@ claim('C09', 'Proof of the round-trip postcondition on the real MQ.frames2topicm
       'frame kind (no image, jpg-only, raw writable/read-only, jpg-cached), GRAY/BGR/RGB, empty or non-empty data and outputs_jpg in {None, True, False}: '
       'same topics, equal data, same image presence, same height/width/format, raw pixels identical, existing JPEG kept byte for byte, otherwise an '
       'encoding of the sent pixels that decodes to the declared shape, message part count per the dataidx arithmetic. Pixels/data/sizes symbolic; 0..2 topics.', '6-C09')
+claim('C01', 'Proof, for every arrival order / delay / loss / skip / restart history (one more message of arbitrary source, id, topic and kind is universally quantified), '
+      'that the real ZMQReceiver.recv only returns sets in which every synchronized source contributed exactly the subscribed topics it published under the returned id: '
+      'inductive invariant of its three loops + postconditions at return; one id and one topics list per ZMQSender.send; MQ.recv/MQ.send carry the received id to the next '
+      'publish; rejoin lemma. Shape-bounded: 1..2 (thorough 3) sources per receiver, all/explicit/* subscriptions.', '6-C01')
+claim('C02', 'Proof that ids returned by one consumer object strictly increase (recv returns >= prev_id+1 / the given state and records it) and that one publisher object never '
+      'publishes an id twice (min_send_id monotone, publish uses id >= it and sets id+1), MQ hands states over correctly; wire lemmas on the real encode/decode/subscribe '
+      'expressions (z3+cvc5 strings): topic survives the wire, a topic is delivered iff the subscription names it, hidden topics only via * or by name, topic_map applied once. '
+      'Payload bytes/data: C09.', '6-C02')
+claim('C03', 'Proof of the per-call clauses of the statement on the real Filter.process_frames, MQ.send and ZMQSender.send closures: None publishes nothing and consumes no id, '
+      '{} is published as an empty set, a lone Frame becomes topic main, a callable result is evaluated exactly once, only inside send_maybe on an open gate, with no poll before '
+      'the publish; publish gate = required outputs tracked and every synchronized client requested; handshake. The whole-history sequence equality (first sentence) is NOT decided.', '6-C03')
+claim('C04', 'Proof on the real sender closures that a publish consumes the request mark of every synchronized client it includes, marks are set only by that client\'s requests, '
+      'clients leave the table only by CLOSE or after ZMQ_CONN_TIMEOUT of silence; on the real receiver that at most one prefetch per source is sent per returned set; counting lemma: '
+      'publishes to a stalled consumer <= requests it had sent + 1, independent of the stall length. The numeric single-digit bound is conditional on the delay assumption.', '6-C04')
+claim('C05', 'Proof that the publish decision and id of the real ZMQSender.send do not depend on ephemeral clients (no gate, no fast-forward, other records untouched), that a ?? '
+      'source is never sent a request, and that the real ZMQReceiver.recv returns all-or-nothing sets for ephemeral sources, for shapes mixing synchronized, ? and ?? sources.', '6-C05')
+claim('C07', 'Proof that a balanced ZMQSender.send publishes all messages of a call on exactly one PUB socket and clears marks only there; balanced-receiver invariant of the real '
+      'recv (single id, single active source, other sources unregistered, polled events discarded) gives single-source single-id sets in strictly increasing order; '
+      'first hop never prefetches; no-duplicate lemma.', '6-C07')
 _todo = 'check not built yet in this session (planned, see DESIGN.md section 6); not claimed until its obligations are discharged'
-for _p in ('C01', 'C02', 'C03', 'C04', 'C05', 'C07', 'C08', 'C11', 'C12', 'C13', 'C14', 'C15', 'C18'):
+for _p in ('C08', 'C11', 'C12', 'C13', 'C14', 'C15', 'C18'):
     NA[_p] = _todo
 NA['C06'] = ('liveness under fairness and bounded-time recovery across several processes: not expressible as pre/postconditions or invariants of one call; '
              'termination is not proved by this verifier (DESIGN.md section 7); its safety ingredients are proved under C02/C04/C05')
